@@ -37,9 +37,7 @@ ASSUMPTIONS = [
     "values are JSON documents (dict/list/str/int/float/bool/None; no tuples, NaN or infinities) — what "
     "convert_bools / json.loads / kr8s produce",
     "drift_detected: the live object matched before the deviation; the target is a well-formed dict (unique keys); "
-    "the path avoids ownerReferences keys and keys compared against last-applied (excluded by the property text); "
-    "side conditions recorded as known findings: a bool<->int retype of a member of a set-directed list, and a "
-    "live value under x-koreo-compare-as-map that is no longer a list of maps",
+    "the path avoids ownerReferences keys and keys compared against last-applied (excluded by the property text)",
     "patch_restores: no explicit nulls in the target, set-directed lists hold scalars, map-directed lists hold "
     "maps with scalar key fields, the target does not itself specify the last-applied annotation",
     "f\"{x}\" of compare-as-map key fields is modelled for None/bool/int/str/integral floats (other values: "
@@ -57,8 +55,7 @@ DIRS = (S, M, L)
 OWNERS = "ownerReferences"
 ANNOTATION = "koreo.dev/last-applied-configuration"
 
-SIG_SET_BOOLINT = "set-directed list: bool<->int retype of a member is not detected"
-SIG_MAP_RAISE = "compare-as-map: live value is not a list of maps: validate_match raises instead of reporting drift"
+
 
 
 # ---------------------------------------------------------------------------
@@ -548,11 +545,7 @@ MAP_RAISE_KINDS = ("map-retype", "map-elem-retype")
 
 
 def deviation_signature(kind, obs, level):
-    """stable name of what fails; the two known candidate defects get their own signatures"""
-    if kind == "set-member-retype-bool-int" and obs == "match":
-        return SIG_SET_BOOLINT
-    if kind in MAP_RAISE_KINDS and obs in ("AttributeError", "TypeError"):
-        return SIG_MAP_RAISE
+    """stable name of what fails"""
     if obs == "match":
         return f"{level}: deviation '{kind}' is not detected"
     return f"{level}: deviation '{kind}': comparison raises {obs}"
